@@ -3,18 +3,23 @@
 1. TLC model-checks the design models of spec/SamplersMC.tla (definitions in spec/Samplers.tla):
    loaded dice by inversion over a family of probability vectors (grid vectors and vectors whose sum
    is off by up to the accepted tolerance) and every cell of the unit interval; the Vose alias-table
-   construction with every pairing order; dice; geometric / binomial / negative binomial as Bernoulli
-   trial processes incl. p = 1.  A variant of the loaded dice without a rule for u beyond the total
-   must be refuted (negative control).
-2. TLC checks that the fit cases of spec/SamplersFit.tla are admissible and well formed and exports
-   them (support bounds from Samplers!Support, bins from Samplers!DiscBins, quantile edges) together
-   with the targets of the steered draws.
+   construction with every pairing order; an alias table followed by a position inside the chosen
+   region (the shape of the ziggurat fall-backs); dice; geometric / binomial / negative binomial as
+   Bernoulli trial processes incl. p = 1.  Two negative controls must be refuted: loaded dice without
+   a rule for u beyond the total, and a position taken from the variate of the keep-or-alias decision.
+2. TLC checks that the fit cases of spec/SamplersFit.tla (sampler x admissible parameter set, with the
+   quantile edges of the stated distribution) are admissible and well formed and exports them (support
+   bounds from Samplers!Support, bins from Samplers!DiscBins) together with the targets of the steered
+   draws (cells next to every decision boundary of the design models).
 3. harness/smp_replay draws from the real samplers: N seeded draws per case, classified against the
    support bounds and tallied into the bins; the alias tables the library builds; single draws whose
-   uniform variate is steered (twin seeding) into cells next to the decision boundaries.
+   uniform variate is steered (twin seeding) into the target cells.
 4. TLC validates the recorded traces against spec/SamplersTrace.tla: support classes, zero-probability
-   values, bin frequencies on every dyadic union of bins and the empirical distribution function
-   against the K-sigma law of Samplers!FreqOK, alias tables against the stated probabilities.
+   values, the count of every bin, of every aligned union of 2^k adjacent bins and of the empirical
+   distribution function at every edge against the K-sigma law Samplers!FreqOK, alias tables against
+   the stated probabilities.  Steered draws that leave the design model but not the property are DRIFT.
+
+--replay <plan> re-runs the plan lines of a reported violation (same seed) and judges them again.
 """
 import os, json, re, subprocess, time
 import vlib
@@ -102,7 +107,7 @@ def fit_plan_line(c, tier_par):
     t += ["v2", str(len(c["v2"]))] + [rat(x) for x in c["v2"]]
     t += ["lo", str(c["lo"][0]), rat(c["lo"][1]), "hi", str(c["hi"][0]), rat(c["hi"][1])]
     if c["kind"] == "cont":
-        t += ["edges", str(c["org"]), str(len(c["edges"]))] + ["%d %d" % (e[0], e[1]) for e in c["edges"]]
+        t += ["edges", str(c["org"]), str(len(c["edges"]))] + ["%d %d %d" % (e[0], e[1], e[2]) for e in c["edges"]]
     else:
         t += ["bins", str(len(c["bins"]))] + ["%d %d" % (b[0], b[1]) for b in c["bins"]]
     if c["s"] == "alias":
